@@ -19,7 +19,8 @@ RULE = ("E3: BFS with dedup on (index, bitfield, model) over all is_valid/strike
         "(numbers 0..2*size+2 and jumps of size, size+1, 10*size beyond the maximum) from three initialisations, with a "
         "persist/reload probe in every state; E1: every arrival sequence up to length L over genuine requests with numbers "
         "{0,1,2,w-1,w,w+1,3w}, their replays, tag-flipped and far-ahead forgeries, and Echo variants for an uninitialised window, "
-        "through unprotect()")
+        "through unprotect(); state really lost: a file-backed context accepts 1-3 requests, the process dies, after reload nothing is accepted "
+        "before a fresh Echo exchange")
 ASSUMPTIONS = [
     "stand-in crypto modules as for C11",
     "the Echo value is set on the context directly (the secrets seam); its generation is not the subject",
@@ -229,10 +230,57 @@ def uninit_probe(res, size):
         w.initialize_from_persisted(p)
 
 
+def lost_state(res, k, start, respond):
+    """State lost for real: a file-backed context accepts k requests (answering them or not), the process dies without a clean
+    stop, the context is loaded again.  Until the peer has echoed a value issued by the new process nothing is accepted -
+    neither the requests seen before nor a fresh one - and the Echo exchange then lets exactly the echoing request in."""
+    from .c13_nonce import Run
+    case = {"family": "lost-state", "accepted_before": k, "chunk_start": start, "respond": respond}
+    res.evaluations += 1
+    r = Run(start, 10000)
+    try:
+        for n in range(k):
+            r.op(("A", n))
+            if respond:
+                r.op(("R",))
+        if len(r.accepted_ever) != k:
+            res.violate(Violation("arrival-outcome", "fresh requests 0..%d accepted" % (k - 1), sorted(r.accepted_ever), "oscore.py:unprotect", case, key="lost:setup"))
+            return
+        r.die()
+        r.load()
+        c = r.ctx
+        for n in list(range(k)) + [k + 7]:
+            r.peer.sender_sequence_number = n
+            outer, _ = r.peer.protect(Message(code=codes.GET, uri_path=["y"]))
+            try:
+                c.unprotect(wire(outer)[0])
+                res.violate(Violation("accepted-while-state-lost", "refused until a fresh Echo exchange", "request %d accepted" % n,
+                                      "oscore.py:FilesystemSecurityContext._replay_window_changed", case,
+                                      key="lost:" + ("replay" if n < k else "fresh")))
+                return
+            except o.ProtectionInvalid:
+                pass
+        r.op(("AE", 0))
+        for v in r.violations:
+            v["case"] = core.jsonable(case)
+            res.violate(v)
+        res.traces += 1
+        res.outcomes.add(("lost", k, len(r.accepted_ever)))
+        res.signatures.add(("lost", k, start, respond))
+    finally:
+        r.close()
+
+
 def job(arg):
     kind, item, tier = arg
     res = Result()
-    if kind == "window":
+    if kind == "lost":
+        for k in (1, 2, 3):
+            for start in (1, 10):
+                for respond in (False, True):
+                    lost_state(res, k, start, respond)
+        res.sample({"lost_state": "k requests accepted, process death, reload", "k": [1, 2, 3]})
+    elif kind == "window":
         size, init, depth = item
         uninit_probe(res, size)
         window_bfs(res, size, init, depth)
@@ -260,13 +308,16 @@ def run(tier, seed, jobs):
         for initialised in (True, False):
             for first in alphabet(w, initialised):
                 work.append(("arrivals", (w, initialised, first, L + (1 if (tier == "thorough" and w == 2) else 0)), tier))
+    work.append(("lost", None, tier))
     res = core.prun(job, work, jobs)
     return res
 
 
 def replay(case, scenario, seed):
     res = Result()
-    if case["family"] == "uninit":
+    if case["family"] == "lost-state":
+        lost_state(res, case["accepted_before"], case["chunk_start"], case["respond"])
+    elif case["family"] == "uninit":
         uninit_probe(res, case["size"])
     elif case["family"] == "window":
         window_bfs(res, case["size"], tuple(case["init"]), len(case["hist"]) + 1)
